@@ -2,6 +2,7 @@ package ftdc
 
 import (
 	"context"
+	"github.com/mongodb/ftdc/verifhook"
 	"io"
 
 	"github.com/evergreen-ci/birch"
@@ -55,11 +56,13 @@ func ReadChunks(ctx context.Context, r io.Reader) *ChunkIterator {
 	// has returned false, Err reports everything that went wrong.
 	go func() {
 		defer close(ipc)
+		defer verifhook.Point("ReadChunks.diagnostic.close")
 		iter.catcher.Add(readDiagnostic(ctx, r, ipc))
 	}()
 
 	go func() {
 		defer close(iter.pipe)
+		defer verifhook.Point("ReadChunks.chunks.close")
 		iter.catcher.Add(readChunks(ctx, ipc, iter.pipe))
 	}()
 
